@@ -3168,7 +3168,13 @@ impl Server {
             _ => return Ok(RespFrame::error("ERR invalid decrement format")),
         };
         
-        match self.storage.incr_by(db, key, -decrement) {
+        // the most negative decrement has no positive counterpart
+        let increment = match decrement.checked_neg() {
+            Some(n) => n,
+            None => return Ok(RespFrame::error("ERR decrement would overflow")),
+        };
+        
+        match self.storage.incr_by(db, key, increment) {
             Ok(new_value) => Ok(RespFrame::Integer(new_value)),
             Err(e) => Ok(RespFrame::error(e.to_string())),
         }
